@@ -148,6 +148,9 @@ Definition handler (h : hstate) : N :=
 Definition uploaded (h : hstate) : bool :=
   match h_cache h, h_upload h with CPresent, UOk => true | _, _ => false end.
 
+(* the answers of an origin whose successive replicate requests find these states *)
+Definition served (hs : list hstate) : list resp := map (fun h => RCode (handler h)) hs.
+
 (* ---- specification vocabulary and the property on one observed run *)
 
 Definition memb (d : N) (l : list N) : bool := existsb (N.eqb d) l.
